@@ -565,7 +565,13 @@ func c08raceBody() {
 // processed the running processors equal what the history implies.
 func c08slowControllerBody() {
 	seq := []c08op{{Kind: "dep+", Svc: "s1"}, {Kind: "cfg", Svc: "s1", Cfg: "v1"}, {Kind: "ep", Svc: "s1", Added: "a"}}
-	n := 32 + sched.Choose(sched.ClsInput, 3, "events beyond the queue capacity")
+	n := []int{32, 33, 34, 0, 1}[sched.Choose(sched.ClsInput, 5, "events beyond the queue capacity")]
+	if n < 32 {
+		// a few events only, all of them still queued when the controller starts: updates of two services whose
+		// effects do not commute with each other's content (every queued event must keep its own lists)
+		seq = append(seq, c08op{Kind: "dep+", Svc: "s2"}, c08op{Kind: "cfg", Svc: "s2", Cfg: "v2"}, c08op{Kind: "ep", Svc: "s2", Added: "b"},
+			c08op{Kind: "ep", Svc: "s1", Added: "b"}, c08op{Kind: "ep", Svc: "s2", Added: "a", Removed: "b"})
+	}
 	for i := 0; i < n; i++ {
 		if i%2 == 0 {
 			seq = append(seq, c08op{Kind: "ep", Svc: "s1", Added: "b", Removed: "a"})
